@@ -609,4 +609,10 @@ def r8_15(ctx):
         ctx.ok(f.where, "the cell list is not rebuilt from itself", f.fq)
 
 
-RULES = [r8_3, r8_4, r8_5, r8_6, r8_7, r8_8, r8_9, r8_10, r8_11, r8_12, r8_13, r8_14, r8_15]
+def r8_16(ctx):
+    from .c01 import r1_3
+    from .common import borrow
+    borrow(ctx, r1_3, "R1.3", "R8.16", " [a frame is a rectangle of at most the width it was given: the child of a fitting Panel is measured against the width minus the two border cells, otherwise the right border is pushed out and cropped]")
+
+
+RULES = [r8_3, r8_4, r8_5, r8_6, r8_7, r8_8, r8_9, r8_10, r8_11, r8_12, r8_13, r8_14, r8_15, r8_16]
